@@ -227,7 +227,10 @@ impl Token {
                         _ => {}
                     }
                 } else if let Some(e) = exp.iter().find(|e| e.0 == c) {
-                    if cx.rng.chance(1, 2) {
+                    // (an entry whose result the table would reduce further - a chain - has no equivalent folded spelling:
+                    // one pass applies one step)
+                    let chained = e.1.chars().any(|x| oracle::fold(lang, x).is_some());
+                    if !chained && cx.rng.chance(1, 2) {
                         piece = cv(e.1);
                         kinds.push("folded");
                         cx.count(&format!("letter {} folded", c));
@@ -312,13 +315,13 @@ impl Prop for Token {
     }
     fn streams(&self) -> Vec<Stream> {
         match self.0 {
-            Which::Invariants => vec![Stream::new("exhaustive", NL * 15, NL * 15), Stream::new("random", 32000, 1600000), Stream::new("corpus", 64, 64)],
+            Which::Invariants => vec![Stream::new("exhaustive", NL * 15, NL * 15), Stream::new("random", 32000, 1600000), Stream::new("corpus", 64, 64), Stream::new("boundary", NL * 4, NL * 16)],
             Which::Variants => vec![Stream::new("stores", 32000, 1600000)],
         }
     }
     fn floors(&self) -> Vec<(&'static str, u64, u64)> {
         match self.0 {
-            Which::Invariants => vec![("exhaustive strings", 250000, 4000000), ("texts with padding", 5000, 50000), ("texts with a stemmed word", 1000, 10000), ("queries with unfinished last word", 50000, 500000), ("texts whose length changed under normalisation", 5000, 50000), ("random hostile strings", 5000, 50000), ("random texts of 100-600 symbols", 1000, 10000), ("corpus titles", 3000, 3000)],
+            Which::Invariants => vec![("exhaustive strings", 250000, 4000000), ("texts with padding", 5000, 50000), ("texts with a stemmed word", 1000, 10000), ("queries with unfinished last word", 50000, 500000), ("texts whose length changed under normalisation", 5000, 50000), ("random hostile strings", 5000, 50000), ("random texts of 100-600 symbols", 1000, 10000), ("corpus titles", 3000, 3000), ("texts with a piece at a power-of-two position", 1500, 6000)],
             Which::Variants => vec![("variants decomposed", 2000, 20000), ("variants folded", 2000, 20000), ("variants re-cased", 5000, 50000), ("variants separator prefix", 2000, 20000), ("variants of a query with hits", 5000, 50000), ("stored-decomposed comparisons", 1000, 10000), ("variants longer than 128 characters", 300, 3000)],
         }
     }
@@ -414,8 +417,47 @@ impl Prop for Token {
                     check_both(cx, lang, &lobj, &once);
                     cx.count("texts followed by their own once-composed spelling");
                 }
+                // ... and the once-reduced spelling (what its reductions made of it: a chained table reduces that further)
+                let reduced = oracle::reduce_once(lang, &text);
+                if reduced != text && reduced != once {
+                    check_both(cx, lang, &lobj, &text);
+                    check_both(cx, lang, &lobj, &reduced);
+                    cx.count("texts followed by their own once-reduced spelling");
+                }
                 give_lang(lang, lobj);
                 cx.count("random hostile strings");
+            }
+            (Which::Invariants, "boundary") => {
+                // long texts in which a decomposed letter / an expanding letter / a separator sits exactly at, before and after
+                // every power of two from 64 to 65 536 (block-wise or windowed processing meets its edges there)
+                let lang = LANGS[(idx % NL) as usize];
+                let lobj = take_lang(lang);
+                let acc = oracle::accents(lang);
+                let exp = oracle::expanding_table(lang);
+                let fill = *cx.rng.pick(&["a", "b", "ab", "a a", "é"]);
+                let piece: String = if !acc.is_empty() && cx.rng.chance(2, 3) {
+                    let a = cx.rng.pick(&acc);
+                    format!("{}{}", a.base, a.mark)
+                } else if !exp.is_empty() && cx.rng.chance(1, 2) {
+                    cx.rng.pick(&exp).0.to_string()
+                } else {
+                    cx.rng.pick(&["e\u{301}", " ", "-x", "\0", "ǅ"]).to_string()
+                };
+                for b in [64usize, 128, 256, 512, 1024, 2048, 4096, 8192, 16384, 32768, 65536].iter() {
+                    for d in [-2i64, -1, 0, 1].iter() {
+                        let at = (*b as i64 + d) as usize;
+                        let fc: Vec<char> = fill.chars().collect();
+                        let mut text: String = (0..at).map(|k| fc[k % fc.len()]).collect();
+                        text.push_str(&piece);
+                        if cx.rng.chance(1, 2) {
+                            text.push_str(&piece);
+                            text.push('z');
+                        }
+                        check_both(cx, lang, &lobj, &text);
+                        cx.count("texts with a piece at a power-of-two position");
+                    }
+                }
+                give_lang(lang, lobj);
             }
             (Which::Invariants, "corpus") => {
                 // corpus titles in en/none, vocabulary of every language
